@@ -669,8 +669,20 @@ def _corr_cases(rng, tier):
         N = rng.choice([1, 2, 2, 3, 3, 4])
         stream = "int" if rng.random() < 0.7 else "float"
         shape = [1 if rng.random() < 0.15 else rng.randint(2, 4) for _ in range(N)]
-        op = rng.choice(["flip", "cumsum", "pad0", "ttm", "ttm"])
+        op = rng.choice(["flip", "cumsum", "pad0", "ttm", "ttm", "cat", "cat", "padc"])
         c = {"kind": "corr", "op": op, "t": gen_tensor(rng, shape, stream=stream).to_json(), "stream": stream, "dd": "float64"}
+        if op == "cat":
+            d = rng.randrange(N)
+            others = []
+            for _ in range(rng.randint(1, 2)):
+                sh = list(shape); sh[d] = rng.randint(1, 3)
+                if rng.random() < 0.12:                       # a size that differs off `dim`: both sides must reject
+                    e = rng.randrange(N); sh[e] = sh[e] + 1
+                others.append(gen_tensor(rng, sh, stream=stream).to_json())
+            c["others"] = others
+            c["dim"] = d - N if rng.random() < 0.3 else d
+        if op == "padc":
+            c["fill"] = float(rng.choice([-2, -1, 1, 2, 3])) if stream == "int" else rng.gauss(0, 2)
         bits = [rng.randint(0, 1) for _ in range(N)]
         if not any(bits):
             bits[rng.randrange(N)] = 1
@@ -711,7 +723,32 @@ def run_corr(ctx, case, J):
     x = t.dense()
     tt = t.to_tn()
     hdr = "%d %s" % (len(bits), " ".join(map(str, bits)))
-    if op == "flip":
+    if op == "cat":
+        ts = [t] + [PT.from_json(o) for o in case["others"]]
+        d = case["dim"]
+        r = safe(lambda: tn.cat([u.to_tn() for u in ts], dim=d))
+        toks = ctx.drv().call("cat %d %d %s" % (len(ts), d, " ".join(u.ser() for u in ts)))
+        off = [n for n in range(t.N) if n != d % t.N]
+        mismatch = any(u.shape[n] != t.shape[n] for u in ts[1:] for n in off)
+        ctx.count("corr:cat " + ("rejected" if mismatch else "accepted"))
+        if r[0] == "err" or toks[0] != "ok":
+            if not (r[0] == "err" and toks[0] == "err"):
+                ctx.corr("cat: implementation %s, model %s" % (r[:2] if r[0] == "err" else "ok", toks[:2]), case)
+            elif not mismatch:
+                ctx.oracle("cat(%s, dim=%d) raised %s: %s" % ([list(u.shape) for u in ts], d, r[1], r[2]), case)
+            elif (toks[1], r[1]) != ("shape", "ValueError"):
+                ctx.corr("cat on mismatching shapes: implementation raises %s, model says %s" % (r[1], toks[1]), case)
+            return
+        exp = np.concatenate([u.dense() for u in ts], axis=d)
+    elif op == "padc":
+        sizes = [x.shape[i] + (1 + i % 2) if bits[i] else -1 for i in range(t.N)]
+        c = case["fill"]
+        r = safe(lambda: tn.pad(tt, [sizes[i] for i in dims], dim=dims, fill_value=c))
+        exp = np.full([sizes[i] if bits[i] else x.shape[i] for i in range(t.N)], c); exp[tuple(slice(0, s) for s in x.shape)] = x
+        rho = abs(c) ** (1.0 / t.N)
+        line = "padc %d %s %s %s %s" % (t.N, " ".join(map(str, sizes)), q(rho), q(1.0 if c > 0 else -1.0), t.ser())
+        exact = False
+    elif op == "flip":
         r = safe(lambda: tn.flip(tt, dims)); exp = np.flip(x, axis=tuple(dims)); line = "flip %s %s" % (hdr, t.ser())
     elif op == "cumsum":
         r = safe(lambda: tn.cumsum(tt, dims)); exp = x
@@ -740,7 +777,8 @@ def run_corr(ctx, case, J):
         line = "ttm %d %s %s" % (t.N, " ".join(parts), t.ser())
     if r[0] == "err":
         ctx.oracle("%s(dims=%s) raised %s: %s" % (op, dims, r[1], r[2]), case); return
-    toks = ctx.drv().call(line)
+    if op != "cat":
+        toks = ctx.drv().call(line)
     if toks[0] != "ok":
         ctx.corr("model %s failed: %s" % (op, " ".join(toks[:4])), case); return
     m = parse_tensor(toks, 1)[0]
